@@ -167,6 +167,43 @@ def fixpoint(item):
     return part
 
 
+def mutated_files(item):
+    """(3) Longer well-formed files with one character deleted, inserted or replaced at every offset."""
+    widths, delimiter, records = item
+    part = Part()
+    total = sum(widths)
+    letters = "abcdefghijklmnopqrstuvwxyz"
+    body = ["".join(letters[(r * 7 + k) % 26] for k in range(total)) for r in range(records)]
+    ends = {"any": ["\n", "\r", "\r\n"], None: [""]}.get(delimiter, [delimiter])
+    bases = []
+    for variant in range(len(ends)):
+        text = ""
+        for index, record in enumerate(body):
+            text += record + ends[(index + variant) % len(ends)]
+        bases.append(text)
+        if delimiter is not None:
+            bases.append(text[: len(text) - len(ends[(records - 1 + variant) % len(ends)])])  # without the final delimiter
+    kinds = collections.Counter()
+    for base in bases:
+        kinds[judge_complete(base, widths, delimiter, part)] += 1
+        part.evaluations += 1
+        for offset in range(len(base) + 1):
+            candidates = []
+            if offset < len(base):
+                candidates.append(base[:offset] + base[offset + 1:])
+                for character in "x\r\n ":
+                    candidates.append(base[:offset] + character + base[offset + 1:])
+            for character in "x\r\n ":
+                candidates.append(base[:offset] + character + base[offset:])
+            for text in candidates:
+                kinds[judge_complete(text, widths, delimiter, part)] += 1
+                part.evaluations += 1
+    part.nontrivial += sum(kinds.values())
+    part.state(("mutated", tuple(widths), delimiter))
+    part.sample({"search": "single-character mutations", "widths": list(widths), "delimiter": delimiter, "records": records, "base": bases[0], "outcomes": dict(kinds)}, limit=1)
+    return part
+
+
 def width_lists(tier):
     lists = [[a] for a in (1, 2, 3)] + [[a, b] for a in (1, 2, 3) for b in (1, 2, 3)] + [[a, b, c] for a in (1, 2, 3) for b in (1, 2, 3) for c in (1, 2, 3)]
     if tier == "quick":
@@ -188,10 +225,13 @@ def run(ctx):
             fix_items.append((widths, delimiter, alphabet, 120000))
     fix_items.sort(key=lambda i: -sum(i[0]))
     ctx.pmap(MOD, "fixpoint", fix_items, label="C13 fixpoint")
+    mutation_items = [(widths, delimiter, records) for widths in ([3, 2, 4], [5], [2, 2, 2, 2], [10, 1], [1, 6]) for delimiter in DELIMITERS for records in ((4,) if quick else (3, 6, 9))]
+    ctx.pmap(MOD, "mutated_files", mutation_items, label="C13 mutations")
     ctx.exhaustive = "fixpoint search capped" not in ctx.total.notes
     ctx.bound = {"bounded enumeration": "all strings over {a,b,CR,LF} up to length %d x %d width lists x 5 delimiter settings" % (max_length, len(width_lists(ctx.tier))),
                  "fixpoint search": "%d (width list, delimiter) configurations explored to the fixpoint of the product (reader frame state x specification automata): all inputs of every length over the alphabet ({a,CR,LF} when the record is wider than %d)" % (len(fix_items), 4 if quick else 6)}
-    ctx.rule = ("(1) plain enumeration; (2) BFS over input prefixes, one character at a time, state = snapshot of the fixed_rows generator frame at the blocked read (call-site lines, "
+    ctx.bound["single-character mutations"] = "%d (width list, delimiter, record count) files: every deletion, insertion and replacement (x, CR, LF, blank) at every offset, with and without the final delimiter" % len(mutation_items)
+    ctx.rule = ("(1) plain enumeration; (3) every single-character mutation of longer well-formed files; (2) BFS over input prefixes, one character at a time, state = snapshot of the fixed_rows generator frame at the blocked read (call-site lines, "
                 "all locals but message-only ones, push-back, unconsumed characters) x greedy and canonical specification states; every visited prefix is also judged as a complete "
                 "input; oracle: returned rows must have the declared widths and reproduce the input with some permitted delimiters, an error is only allowed if the input is not "
                 "canonically well-formed; non-trivial = every judged input (each is either accepted with rows or rejected)")
